@@ -114,6 +114,35 @@ theorem ptr_roundtrip (a : IP) (ha : a.length = 16) : parseIP6ArpaName (arpaName
   rw [parse_join _ (by simp [nibbles_length, ha]) (fun n hn => nibbles_lt a n (List.mem_reverse.mp hn))]
   simp [pairUp_nibbles]
 
+/-- **Only the 32-nibble reverse name parses.** If `parseIP6ArpaName` accepts a
+name then (lower-cased, final dot dropped) it is `head ++ ".ip6.arpa"` where
+`head` splits at its dots into exactly 32 labels, every one a single hex digit,
+and the address is assembled from those nibbles: a label of any other length —
+a separator that is not a dot — is refused whatever the total length. -/
+theorem arpa_parse_only_one_nibble_labels (n : Name) (a : IP) (h : parseIP6ArpaName n = some a) :
+    ∃ (head : Name) (cs : List Char) (nibs : List Nat), trimSuffix (lower n) ['.'] = head ++ ip6ArpaSuffix ∧
+      splitDots head = cs.map (fun c => [c]) ∧ cs.length = 32 ∧ cs.mapM hexNibble = some nibs ∧
+      a = pairUp nibs.reverse := by
+  unfold parseIP6ArpaName at h
+  simp only at h
+  split at h
+  · cases h
+  · rename_i hsuf
+    split at h
+    · cases h
+    · rename_i h32
+      split at h
+      · cases h
+      · rename_i nibs hn
+        simp only [Option.some.injEq] at h
+        obtain ⟨cs, hcs, hm⟩ := mapM_labelNibble_singletons _ _ hn
+        refine ⟨_, cs, nibs, (take_of_hasSuffix _ _ (by simpa using hsuf)).symm, hcs, ?_, hm, h.symm⟩
+        have : (cs.map fun c => [c]).length = 32 := by rw [← hcs]; simpa using h32
+        simpa using this
+
+example : parseIP6ArpaName ("1a2.2.0.0.0.0.c.0.0.0.0.0.0.0.0.0.0.0.0.0.0.0.0.b.9.f.f.4.6.0.0.ip6.arpa.".toList) = none := by
+  decide
+
 /-- **The matching PTR query maps back to the same IPv4 address.** -/
 theorem ptr_maps_back (p : IP) (bits : Nat) (v : IP) (hp : p.length = 16) (hv : v.length = 4)
     (hl : isLegal bits = true) :
@@ -954,6 +983,47 @@ theorem synth_sections (c : Cfg) (q : Query) (down : Option Down) (a : AResp)
       have := (List.mem_filter.mp hr).2
       simpa using this
     cases m.opt <;> simp [optRR, hno]
+
+/-- IPv6 network (non-mapped 16-byte address) never contains an IPv4 source, whatever its length. -/
+theorem v6_net_excludes_v4_sources (n : Net) (ip : IP) (hn : n.ip.length = 16) (hm : isMapped n.ip = false)
+    (hip : ip.length = 4 ∨ (ip.length = 16 ∧ isMapped ip = true)) : n.contains ip = false := by
+  unfold Net.contains norm4
+  have h4 : (n.ip.length == 4) = false := by simp [hn]
+  simp only [h4, hm, Bool.false_eq_true, if_false, hn]
+  rcases hip with h | ⟨h16, hmp⟩
+  · simp [h]; intro h'; omega
+  · simp [hmp, h16]; intro h'; omega
+
+/-- **An IPv6-only client set admits no IPv4 source.** With a non-empty
+`client_networks` holding only IPv6 networks (`::/0` included) a query from an
+IPv4 source — 4-byte or `::ffff:a.b.c.d` form — is neither synthesised for nor
+PTR-translated. -/
+theorem ipv6_only_clients_exclude_v4 (c : Cfg) (q : Query) (down : Option Down) (a : AResp)
+    (hne : c.clients ≠ []) (hv6 : ∀ n ∈ c.clients, n.ip.length = 16 ∧ isMapped n.ip = false)
+    (hip : q.client.length = 4 ∨ (q.client.length = 16 ∧ isMapped q.client = true)) :
+    (serve c q down a).kind ≠ .synth ∧ (serve c q down a).kind ≠ .ptr := by
+  have hel : c.clientEligible q.client = false := by
+    unfold Cfg.clientEligible
+    have : c.clients.isEmpty = false := by
+      cases hcl : c.clients with
+      | nil => exact absurd hcl hne
+      | cons _ _ => rfl
+    simp only [this, Bool.false_eq_true, if_false]
+    rw [List.any_eq_false]
+    intro n hn
+    have := v6_net_excludes_v4_sources n q.client (hv6 n hn).1 (hv6 n hn).2 hip
+    simp [this]
+  constructor
+  · intro h
+    have := (synth_only_when_allowed c q down a h).2.2.2.2.1
+    rw [hel] at this; cases this
+  · intro h
+    have := (ptr_translation_sound c q down a h).2.2.2.2.1
+    rw [hel] at this; cases this
+
+example : ({ clients := [⟨List.replicate 16 0, 0, true⟩] } : Cfg).clientEligible [203, 0, 113, 5] = false := by decide
+example : ({ clients := [⟨List.replicate 16 0, 0, true⟩] } : Cfg).clientEligible
+    [0x20, 1, 0xd, 0xb8, 0, 0, 0, 0, 0, 0, 0, 0, 0, 0, 0, 9] = true := by decide
 
 /-! ## facts regenerated from the tree -/
 
